@@ -66,7 +66,7 @@ class set_type(DataStreamProcessor):
         for res in dp.descriptor['resources']:
             if self.matcher.match(res['name']):
                 for field in res['schema']['fields']:
-                    if self.name.match(field['name']):
+                    if self.name.fullmatch(field['name']):
                         field.update(self.options)
                         self.field_names.setdefault(res['name'], []).append(field['name'])
                         added = True
